@@ -170,15 +170,18 @@ func (i *iteratorRole) ProcessTemplates(workflowRepo repos.IRepo, loadSubworkflo
 		wg.Add(len(i.Roles))
 
 		var roleErrors *multierror.Error
+		var roleErrorsMu sync.Mutex
 
 		// Process templates for child roles
 		for roleIdx := range i.Roles {
 			go func(roleIdx int) {
 				defer wg.Done()
 				role := i.Roles[roleIdx]
-				err = role.ProcessTemplates(workflowRepo, loadSubworkflow, baseConfigStack)
-				if err != nil {
-					roleErrors = multierror.Append(roleErrors, err)
+				roleErr := role.ProcessTemplates(workflowRepo, loadSubworkflow, baseConfigStack)
+				if roleErr != nil {
+					roleErrorsMu.Lock()
+					roleErrors = multierror.Append(roleErrors, roleErr)
+					roleErrorsMu.Unlock()
 				}
 			}(roleIdx)
 		}
@@ -236,6 +239,7 @@ func (i *iteratorRole) expandTemplate() (err error) {
 		wg.Add(len(ran))
 
 		var roleErrors *multierror.Error
+		var roleErrorsMu sync.Mutex
 		roles = make([]Role, len(ran))
 
 		for rangeIdx := range ran {
@@ -244,10 +248,11 @@ func (i *iteratorRole) expandTemplate() (err error) {
 				localValue := ran[rangeIdx]
 				locals := make(map[string]string)
 				locals[i.For.GetVar()] = localValue
-				var newRole Role
-				newRole, err = i.template.generateRole(locals)
-				if err != nil {
-					roleErrors = multierror.Append(roleErrors, err)
+				newRole, roleErr := i.template.generateRole(locals)
+				if roleErr != nil {
+					roleErrorsMu.Lock()
+					roleErrors = multierror.Append(roleErrors, roleErr)
+					roleErrorsMu.Unlock()
 					return
 				}
 				roles[rangeIdx] = newRole
